@@ -228,11 +228,16 @@ LinksConsistentDB(db) == LinksDB(db) = {}
 
 \* links that hold in the database of ONE library (member -> container); after a merge a
 \* function of a library whose definition of a shared class lost stays behind as an orphan.
-BackMethods(db) ==
+ElemFns(db, e) == IF e \in EIx(db) THEN LET r == db.e[e] IN {r.getter, r.setter, r.has, r.clear, r.del, r.ins, r.getkey, r.len} ELSE {}
+BackMethods(db) ==   \* a member function is reachable from its class: as method / constructor / destructor / cast,
+                     \* as up- or downcast of a derivation, or as accessor of one of the class's elements
   {i \in FIx(db) : db.f[i].cls \in TIx(db) /\ db.t[db.f[i].cls].fd /\ db.f[i].method /\
-       LET c == db.t[db.f[i].cls] IN
+       LET ci == db.f[i].cls
+           c == db.t[ci] IN
        i \notin SeqRange(c.methods) \cup SeqRange(c.ctors) \cup SeqRange(c.casts) \cup {c.dtor}
-                \cup {c.derivs[k].up : k \in DOMAIN c.derivs} \cup {c.derivs[k].down : k \in DOMAIN c.derivs}}
+                \cup {c.derivs[k].up : k \in DOMAIN c.derivs}
+                \cup UNION {{db.t[t].derivs[k].down : k \in {q \in DOMAIN db.t[t].derivs : db.t[t].derivs[q].base = ci}} : t \in TIx(db)}
+                \cup UNION {ElemFns(db, c.elems[k]) : k \in DOMAIN c.elems}}
 BackLinksDB(db) == BackMethods(db) \cup LinkOuter(db)
 
 VectorsExactDB(db) ==
